@@ -231,4 +231,4 @@ package fsnotify
 //@     invariant KWf(w) && nolocks() && token(reader) && !closed(w.Events) && !closed(w.Errors)
 //@     invariant okIter                                                                                                          [C18] "after a Remove of a file the name is looked at again, so that a name removed and created again is reported as Remove followed by Create"
 //@     step okIter = !(ok && event.Op & Remove != 0 && !path.isDir) || has(statted, filepath.Clean(event.Name))
-//@     exit loopIdx == len(kevents)                                                                                            [C17 C18] "every notification of a batch is handled: the loop over the batch is left only when the batch is exhausted (the reader's returns end the reader, they do not skip notifications)"
+//@     exit loopIdx >= len(kevents)                                                                                            [C17 C18] "every notification of a batch is handled: the loop over the batch is left only when the batch is exhausted (the reader's returns end the reader, they do not skip notifications)"
